@@ -9,7 +9,7 @@ GROUPS = {'s1': ['C01', 'C02', 'C03'], 's2': ['C04', 'C05', 'C12'], 's3': ['C06'
           's9': ['C33', 'C34', 'C39'], 's10': ['C35', 'C24', 'C20'], 's11': ['C26', 'C27', 'C18'], 's12': ['C11', 'C09', 'C41'],
           's13': ['C19', 'C23', 'C21'], 's14': ['C30', 'C45', 'C32'], 's15': ['C36', 'C38'],
           # second round (fresh agents, same procedure): kept as <ID>-r2
-          't1': ['C16', 'C19'], 't2': ['C25', 'C03'], 't3': ['C32', 'C38'], 't4': ['C09', 'C10'], 't5': ['C15', 'C22']}
+          't1': ['C16', 'C19'], 't2': ['C25', 'C03'], 't3': ['C32', 'C38'], 't4': ['C09', 'C10'], 't5': ['C15', 'C22'], 't6': ['C37']}
 FLAKY = ('context_tests', 'performance_tests', 'mandelbrot', 'test_large_kleene_no_hang', 'test_process_1000_events', 'chaos',
          'test_two_context', 'test_three_context', 'test_single_context', 'test_session_window', 'test_context_', 'test_parallel_dispatch', 'test_expanded_contexts')
 
@@ -50,8 +50,10 @@ for g, ids in GROUPS.items():
         last = r[-1] if r else None
         ok_tests = None
         if conf:
+            # every test binary that failed in the full (loaded) run must have passed when re-run alone with the patch applied
+            rerun = conf.get('flaky_rerun', {})
             ok_tests = bool(conf.get('compiles')) and all(
-                all(any(f in t for f in FLAKY) for t in x['failed_tests']) for x in conf.get('existing_tests', []))
+                rerun.get(b, {}).get('passes_alone_with_patch') for x in conf.get('existing_tests', []) for b in x.get('failed_binaries', []))
         confirmed = bool(conf and conf.get('patch_applies') and conf.get('compiles') and ok_tests
                          and conf.get('demo_passes_without_change') and conf.get('demo_fails_with_change'))
         manual = os.path.exists(os.path.join(src, 'orig'))  # demo replaced by mine and verified by hand
@@ -91,7 +93,8 @@ for g, ids in GROUPS.items():
                 'confirmed_by_me': {
                     'where': 'scratch worktree /tmp/mut/repo2 of /repo (removed afterwards), target dir /tmp/mut/rtarget',
                     'patch_applies_and_compiles': bool(conf and conf.get('compiles')),
-                    'existing_tests': 'cargo test --offline -p <touched crate(s)> --no-fail-fast with the change: no failures other than the sleep/wall-clock based tests that flake on this loaded machine' if ok_tests else 'see confirm json',
+                    'existing_tests': 'cargo test --offline -p <touched crate(s)> --no-fail-fast with the change; every test binary with a failure in that (heavily loaded) run was re-run alone with the change applied and passed' if ok_tests else 'see confirm json',
+                    'test_binaries_rerun_alone': conf.get('flaky_rerun', {}),
                     'existing_test_failures_seen': [t for x in (conf or {}).get('existing_tests', []) for t in x['failed_tests']],
                     'demo_passes_without_change': bool(conf and conf.get('demo_passes_without_change')) or manual,
                     'demo_fails_with_change': bool(conf and conf.get('demo_fails_with_change')),
